@@ -8,7 +8,7 @@ import numpy as np
 
 from .. import alph
 from ..alph import Rx, Ry, Rz, euler_ref
-from ..core import CaseResult
+from ..core import CaseResult, variants
 
 PROP = "C03"
 LEVEL = "exploration"
@@ -23,6 +23,7 @@ ASSUMPTIONS = ["Rodrigues convention: U is the transpose of the active right-han
                "rebuild tolerance 1e-6 as stated by the property; constructor tolerance 1e-12", "rotation angles within 1e-6 of 180 degrees are excluded for u_to_rod"]
 
 EXTRA = [1e-9, -1e3, 12345.678]
+LADDER = [0.0, 1e-9, -1e-7, 1e-6, 6e-5, -4e-5, 1e-4, -1e-3, 1e-2, 0.3, -2.0]
 
 
 def ang1():
@@ -71,6 +72,9 @@ def cases(tier, seed):
             for d in alph.GIMBAL_BAND:
                 cs.append({"kind": "band", "mod": mod, "end": end, "d": d, "tier": tier})
         cs.append({"kind": "rod", "mod": mod, "tier": tier})
+        cs.append({"kind": "checks-off", "mod": mod, "tier": tier})
+        cs.append({"kind": "ladder", "mod": mod, "tier": tier})
+        cs.append({"kind": "forms", "mod": mod, "tier": tier})
         N = 2 if tier == "quick" else 3
         nq = len(alph.quat_rots(N))
         for lo in range(0, nq, 40):
@@ -266,6 +270,65 @@ def check_case(case):
                         d = float("inf")
                     r.check("rod-argkind", d, 1e-5 if kn == "float32" else 1e-9, key + ":u_to_rod", "u_to_rod for a %s matrix" % kn)
         r.states = len(dirs) * 6
+    elif k == "ladder":
+        # a logarithmic ladder of small angles: a shortcut "this tilt is negligible" would sit somewhere between 0 and 1e-2
+        for (a, b, c) in itertools.product(LADDER, repeat=3):
+            for fname, args, ref in (
+                ("form_omega_mat_general", (a, b, c), lambda: Rx(b) @ Ry(c) @ Rz(a)),
+                ("detect_tilt", (a, b, c), lambda: Rx(a) @ Ry(b) @ Rz(c)),
+                ("quart_to_omega", (math.degrees(a), b, c), lambda: (Rx(b) @ Ry(c)) @ Rz(a) @ (Rx(b) @ Ry(c)).T),
+                ("euler_to_u", (abs(a), abs(b), abs(c)), lambda: euler_ref(abs(a), abs(b), abs(c))),
+            ):
+                key = "%s:%s%r" % (mname, fname, args)
+                M = getattr(mod, fname)(*args)
+                R = ref()
+                if proper(r, M, key):
+                    r.check("ctor", float(np.max(np.abs(M - R))), 1e-13, key, "%s equals the documented composition (small angles)" % fname, R, M)
+                r.nontrivial.add("%s:%r" % (fname, args))
+        r.states = len(LADDER) ** 3 * 4
+    elif k == "checks-off":
+        # environment: the package switch xfab.CHECKS.activated = False is the documented way to reach "all real angles" for
+        # euler_to_u (with the checks on, angles outside [0,2pi] are refused).  With the switch off every constructor of BOTH modules
+        # must return the documented composition for negative angles and angles beyond 2pi as well.
+        import xfab
+
+        A = [k_ * math.pi / 6 for k_ in range(-6, 19, 3)] + [0.1, -0.1, 7.0, -1e3, 12345.678]
+        xfab.CHECKS.activated = False
+        try:
+            for p1, P, p2 in itertools.product(A, repeat=3):
+                key = "%s:checks-off:euler_to_u(%r,%r,%r)" % (mname, p1, P, p2)
+                try:
+                    M = mod.euler_to_u(p1, P, p2)
+                except Exception as ex:
+                    r.evals += 1
+                    r.violation(key, "euler_to_u returns for every real angle triple once the package switch is off", None, repr(ex))
+                    continue
+                R = euler_ref(p1, P, p2)
+                big = max(abs(p1), abs(P), abs(p2)) > 100
+                if proper(r, M, key, tol=1e-11 if big else 1e-12):
+                    r.check("ctor", float(np.max(np.abs(M - R))), 1e-9 if big else 1e-12, key, "euler_to_u = Rz(phi1)Rx(PHI)Rz(phi2) for all real angles (switch off)", R, M)
+                r.nontrivial.add("off:euler:%r,%r,%r" % (p1, P, p2))
+            for q, R in alph.quat_rots(1)[:20]:
+                chain(r, mod, R, "%s:checks-off:U=quat%s" % (mname, q))
+        finally:
+            xfab.CHECKS.activated = True
+        r.states = len(A) ** 3
+    elif k == "forms":
+        # argument kinds x call forms (positional / by documented keyword) for every constructor and inverse
+        t12, t6 = 1e-12, 2e-6
+        for ia in ((0.0, 1.0, 2.0), (3.0, 0.0, 6.0), (0.5, 0.25, 1.75), (6.0, 3.0, 1.0)):
+            for fname in ("euler_to_u", "form_omega_mat_general", "detect_tilt", "quart_to_omega"):
+                for pos in range(3):
+                    variants(r, "%s:%s%r" % (mname, fname, ia), getattr(mod, fname), list(ia), pos, t12, t6)
+            variants(r, "%s:form_omega_mat(%r)" % (mname, ia[0]), mod.form_omega_mat, [ia[0]], 0, t12, t6)
+        for iv in ((1.0, 2.0, 3.0), (0.0, 0.0, 2.0), (0.25, -0.5, 0.125), (0.0, 0.0, 0.0)):
+            variants(r, "%s:rod_to_u(%r)" % (mname, iv), mod.rod_to_u, [list(iv)], 0, t12, t6)
+        for q, R in alph.quat_rots(1)[:14]:
+            reb = lambda a, b: float(np.max(np.abs(euler_ref(*[float(x) for x in b]) - euler_ref(*[float(x) for x in a]))))
+            variants(r, "%s:u_to_euler(quat%s)" % (mname, q), mod.u_to_euler, [R], 0, 1e-6, 1e-5, dev=reb)
+            if abs(1 + np.trace(R)) > 1e-3:
+                variants(r, "%s:u_to_rod(quat%s)" % (mname, q), mod.u_to_rod, [R], 0, 1e-9, 1e-5)
+        r.states = 14
     elif k == "quat":
         Q = alph.quat_rots(case["N"])[case["lo"]:case["hi"]]
         for q, R in Q:
